@@ -350,6 +350,23 @@ def File.basic (f : File) : Bool := f.items.basic
 
 /-! ### comment-free files: the tree of the output (`C06.frag_fixed_point_comment_free`) -/
 
+/-- the leftmost token of an expression when it is a leaf reached through calls, selects and binary
+    operators -/
+def Cst.headLeaf : Cst → Option (LeafKind × Text)
+  | .leaf k t => some (k, t)
+  | .app f _ _ _ => f.headLeaf
+  | .sel e _ _ _ _ => e.headLeaf
+  | .selOr e _ _ _ _ _ _ _ _ => e.headLeaf
+  | .bin l _ _ _ _ _ _ => l.headLeaf
+  | _ => none
+
+/-- a `-` written directly in front of the expression fuses with its first token into ONE path token
+    (`- ./p.nix` is rebuilt as `-./p.nix`: `C01.cex_unary_minus_path_fused`) -/
+def Cst.fusesMinus (e : Cst) : Bool :=
+  match e.headLeaf with
+  | some (.path, t) => t.head? != some '<'
+  | _ => false
+
 mutual
 def Cst.cf : Cst → Bool
   | .leaf _ _ => true
@@ -357,11 +374,12 @@ def Cst.cf : Cst → Bool
   | .set _ _ its _ => its.cf
   | .paren its _ => its.cf
   | .app f cs _ a => f.cf && cs.isEmpty && a.cf
-  | .kw .. => false     -- the normaliser `Cst.norm` does not cover `with` / `assert` yet
+  -- `with`; the normaliser `Cst.norm` does not cover `assert` yet
+  | .kw w c1 _ h c2 _ c3 _ b => w && c1.isEmpty && h.cf && c2.isEmpty && c3.isEmpty && b.cf
   | .sel e c1 _ _ _ => e.cf && c1.isEmpty
   | .selOr e c1 _ _ _ c2 _ _ d => e.cf && c1.isEmpty && c2.isEmpty && d.cf
   | .lam _ c1 _ c2 _ b => c1.isEmpty && c2.isEmpty && b.cf
-  | .un _ c _ e => c.isEmpty && e.cf
+  | .un op c _ e => c.isEmpty && e.cf && !(op == ['-'] && e.fusesMinus)
   | .bin l c1 _ _ c2 _ r => l.cf && c1.isEmpty && c2.isEmpty && r.cf
 def Items.cf : Items → Bool
   | .nil => true
@@ -423,7 +441,20 @@ def Cst.norm : Cst → Nat → Cst
   | .app f cs g a, i =>
     .app (f.norm i) cs (if containsNL g then vgap g (indentFromGap g) else [' '])
       (a.norm (if containsNL g then indentFromGap g else i))
-  | .kw w c1 g1 h c2 g2 c3 g3 b, _ => .kw w c1 g1 h c2 g2 c3 g3 b     -- not covered by the normaliser
+  -- `with`, one space or a line break (the environment then at the indentation read from the gap), environment,
+  -- `;` attached, then the body: on its own line at the current indentation (after one blank line if the source has
+  -- one around the `;`) when the source has a line break around the `;`; else after one space when it is a set /
+  -- list (or one in parentheses); else on its own line when it spans several lines; else after one space
+  | .kw true c1 g1 h c2 g2 c3 g3 b, i =>
+    .kw true c1 (if containsNL g1 then vgap g1 (indentFromGap g1) else [' '])
+      (h.norm (if containsNL g1 then indentFromGap g1 else i)) c2 [] c3
+      (if gapHasEmptyLine (g2 ++ ';' :: g3) then '\n' :: '\n' :: spaces i
+       else if containsNL (g2 ++ ';' :: g3) then '\n' :: spaces i
+       else if b.absorbableC then [' ']
+       else if containsNL (b.norm i).flatten then '\n' :: spaces i
+       else [' '])
+      (b.norm i)
+  | .kw false c1 g1 h c2 g2 c3 g3 b, _ => .kw false c1 g1 h c2 g2 c3 g3 b     -- `assert`: not covered by the normaliser
   -- expression, nothing or a line break (at the indentation read from the gap), `.`, attrpath
   | .sel e c1 g1 _ attrs, i =>
     .sel (e.norm i) c1 (if containsNL g1 then vgap g1 (indentFromGap g1) else []) [] attrs
